@@ -340,6 +340,22 @@ func (rn *c12Runner) runCase(sc *c12Scenario, plan *c12Plan, pre []wLookup, comp
 	}
 	sort.Strings(keys)
 	reqs := []string{"reset"}
+	{
+		// the finite universe of the boolean statement: the data and the pre-state's complete contents
+		uni := []string{rn.m.ref(sc.Data)}
+		useen := map[string]bool{string(sc.Data): true}
+		for k, c := range sc.Pre {
+			if k[0] == 'd' && outHex(c) == k[2:] && !useen[string(c)] {
+				useen[string(c)] = true
+				uni = append(uni, rn.m.ref(c))
+			}
+		}
+		if p2 := pass2Data(sc); !useen[string(p2)] {
+			uni = append(uni, rn.m.ref(p2))
+		}
+		sort.Strings(uni[1:])
+		reqs = append(reqs, "universe "+strings.Join(uni, " "), "ids "+strings.Join([]string{idHex(0), idHex(1), idHex(2), idHex(3)}, " "))
+	}
 	var preKeys []string
 	for k := range sc.Pre {
 		preKeys = append(preKeys, k)
@@ -411,6 +427,13 @@ func (rn *c12Runner) runCase(sc *c12Scenario, plan *c12Plan, pre []wLookup, comp
 		return
 	}
 	// result and trace
+	if i := strings.LastIndex(ans[nSetup], " | holds="); i >= 0 {
+		if ans[nSetup][i+9:] != "true" {
+			out.corr = "the boolean form c12_holds_on of the C12 statement is " + ans[nSetup][i+9:] + " on this case (model level)"
+			return
+		}
+		ans[nSetup] = ans[nSetup][:i]
+	}
 	parts := strings.SplitN(ans[nSetup], " | ", 2)
 	mres := strings.Fields(parts[0])
 	want := map[string]string{"ok": "DONE PUTOK", "err": "DONE PUT", "crash": "STOPPED"}[resp.Res]
